@@ -411,5 +411,50 @@ func c10(r *mon.Run) {
 				t.NontrivialDistinct(1)
 			}
 		}}
-	r.Exec(exh, by, many, rnd, sizedWorkload(r, "sized-arrays-ill-typed", true), nj, erw, oddw)
+	// every kind of failing call in every single-hole context of the grammar and in every context of every
+	// context (the contexts of C11): "never a value" holds under nesting - next to an identical twin, behind a
+	// pipe that selects, as the argument of a more tolerant function
+	var ferrs []*gen.Expr
+	for _, e := range c11Errors() {
+		if !strings.HasPrefix(e.name, "zero-slice-step") {
+			ferrs = append(ferrs, e.e)
+		}
+	}
+	ferrs = append(ferrs, gen.Func("abs", gen.Field("s")), gen.Func("nosuch"), gen.Func("length", gen.Field("a"), gen.Field("a")), gen.Func("max_by", gen.Field("x"), gen.Field("a")), gen.Func("join", gen.Field("a"), gen.Field("x")))
+	fctx := c11Contexts()
+	fdocs := []interface{}{docs.J(`{"a":1,"s":"str","x":[{"a":1},{"a":2}],"o":{"p":{"a":1},"q":{"a":2}}}`), docs.J(`{"a":"","s":"t","x":[{"a":false},{"a":null}],"o":{"p":null}}`)}
+	FC, FE, FD := len(fctx), len(ferrs), len(fdocs)
+	inctx := mon.Workload{Name: "failing-calls-in-every-context", N: (FC + FC*FC) * FE * FD, Batch: 4000,
+		Do: func(i int, t *mon.Tally) {
+			doc := fdocs[i%FD]
+			k := i / FD
+			e := ferrs[k%FE]
+			k /= FE
+			var tree *gen.Expr
+			if k < FC {
+				tree = fctx[k].f(e)
+			} else {
+				k -= FC
+				tree = fctx[k/FC].f(fctx[k%FC].f(e))
+			}
+			cx := &caseCtx{r, t, "failing-calls-in-every-context", i}
+			res, _, _ := cx.runOne(tree, gen.Spell(tree), doc)
+			if isErr(res) {
+				t.NontrivialDistinct(1)
+				t.Count("failing call reached inside a context: error expected")
+			}
+		}}
+	// an ill-typed call that only some elements make (first, middle, last, far into a long array), with a
+	// selection applied to the projection: no early exit, first-match short cut or overwritten error may hide it
+	lateTrees, lateDocs := c11LateCases()
+	latew := mon.Workload{Name: "ill-typed-for-some-elements", N: len(lateTrees) * len(lateDocs),
+		Do: func(i int, t *mon.Tally) {
+			tree, doc := lateTrees[i/len(lateDocs)], lateDocs[i%len(lateDocs)]
+			cx := &caseCtx{r, t, "ill-typed-for-some-elements", i}
+			res, _, _ := cx.runOne(tree, gen.Spell(tree), doc)
+			if isErr(res) {
+				t.NontrivialDistinct(1)
+			}
+		}}
+	r.Exec(exh, by, many, rnd, sizedWorkload(r, "sized-arrays-ill-typed", true), nj, erw, oddw, inctx, latew)
 }
